@@ -314,7 +314,7 @@ def r4(ctx, tables):
 def r5(ctx, tables):
     """'every candidate it learned of was contacted' starts with every reported peer becoming a candidate"""
     facts = ctx.facts
-    rule = Rule("C10.R5", "on_success makes every reported peer a candidate: the loop runs over the whole answer and every iteration reaches the insert", floor=4,
+    rule = Rule("C10.R5", "on_success makes every reported peer a candidate: the loop runs over the whole answer and every iteration reaches the insert; the Service passes the whole admissible answer", floor=6,
                 engine="A-prov + A-path")
     for which in ("closest", "predicate"):
         meta = tables[which][1]
@@ -352,6 +352,27 @@ def r5(ctx, tables):
                             short(t.callee() or ""))]
         rule.check(not shrink, "[%s] the answer is not shortened before it is iterated" % which, "%s|on_success|answer-shortened" % which,
                    "[%s] on_success applies %s to the reported peers" % (which, ", ".join(shrink)), loc=osb.loc(osb.line))
+    # ... and the Service hands the lookup every admissible record of the answer: once the lookup has been found, the answer is not reduced any
+    # more (by what the lookup has "already seen", say - its list of seen records is larger than its set of candidates)
+    SV = "crate::service::Service::"
+    db = facts.one(re.escape(SV) + "discovered$")
+    rule.analysed(db)
+    dp = Prov(db, facts)
+    ens = ("param", 3, db.local_name(3) or "enrs")
+    osc = [(bi, t) for bi, t in db.calls() if short(t.callee() or "").endswith("query_pool::Query::on_success")]
+    getq = [bi for bi, t in db.calls() if callee_matches(t, r"HashMap::<.*>::get_mut$|QueryPool::<.*>::get_mut$", r"(HashMap|QueryPool)::get_mut$") and "queries" in fmt_short(dp.operand(t.args[0]))]
+    if not osc or not getq:
+        raise AnchorError("Service::discovered: the lookup's on_success call / the lookup of the query was not found")
+    for bi, t in osc:
+        a = canon(dp.operand(t.args[2]))
+        rule.check(set(roots(a)) == {ens} and not any(x[0] == "call" for x in walk(a)), "Service::discovered passes the (filtered) answer itself to on_success", "discovered|on_success-arg",
+                   "Service::discovered reports %s to the lookup instead of the records of the answer" % fmt_short(a)[:120], loc=db.loc(t.line))
+    late = [short(t.callee() or "").split("::")[-1] for bi, t in db.calls() if t.args and any(y == ens for y in roots(dp.operand(t.args[0]))) and
+            re.search(r"::(truncate|drain|retain|retain_mut|pop|split_off|clear|dedup|dedup_by_key|dedup_by|remove|swap_remove)$", short(t.callee() or "")) and
+            any(db.dominates(gq, bi) for gq in getq)]
+    rule.check(not late, "the answer is not reduced after the lookup it belongs to was found", "discovered|reduced-for-query",
+               "Service::discovered applies %s to the answer after looking the query up: records the lookup has merely seen (its routing-table snapshot) but not taken as "
+               "candidates are withheld from it and never contacted" % ", ".join(late), loc=db.loc(db.line))
     return rule
 
 
